@@ -36,19 +36,21 @@ try:
         dst = os.path.join(wt, rel) if rel.endswith(".go") else os.path.join(wt, rel, f)
         os.makedirs(os.path.dirname(dst), exist_ok=True)
         shutil.copy(src, dst); demo_files.append(dst)
-    cmd = meta["demo_cmd"].replace(f"/tmp/{name}", wt)
+    cmd = meta["demo_cmd"].replace(f"/tmp/{name}-out", "@@OUT@@").replace(f"/tmp/{name}", wt).replace("@@OUT@@", out)
     if "export GOFLAGS" not in cmd:
         cmd = "export GOFLAGS=-mod=mod GOPROXY=off GOSUMDB=off GOTOOLCHAIN=local; " + cmd
     base = sh(cmd, cwd=wt)
-    report["demo_without_change"] = "pass" if base.returncode == 0 else "FAIL"
+    failed = lambda r: r.returncode != 0 or "--- FAIL" in r.stdout or "\nFAIL" in r.stdout or r.stdout.startswith("FAIL")
+    report["demo_without_change"] = "pass" if not failed(base) else "FAIL"
     a = sh(f"git apply {patch}", cwd=wt)
     assert a.returncode == 0, "patch does not apply: " + a.stderr
     b = sh("go build ./...", cwd=wt)
     report["builds"] = b.returncode == 0
     with_change = sh(cmd, cwd=wt)
-    report["demo_with_change"] = "pass" if with_change.returncode == 0 else "fail"
+    report["demo_with_change"] = "pass" if not failed(with_change) else "fail"
     for f in demo_files:
-        os.remove(f)
+        if os.path.exists(f):
+            os.remove(f)
     t = sh("go test -count=1 ./... 2>&1 | grep -v '^ok\\|no test files' | head", cwd=wt)
     report["unit_tests_pass_with_change"] = t.stdout.strip() == ""
     if t.stdout.strip():
